@@ -494,10 +494,25 @@ func ToGeneralizedType(t Type) *GeneralizedType {
 }
 
 func GetUnderlyingType(t Type) Type {
+	return getUnderlyingType(t, nil)
+}
+
+// aliasesSeen holds the aliases on the current resolution chain. A reference cycle through aliases
+// (A: B, B: A) is a validation error, but it is reported by a pass that runs after the passes that
+// already need underlying types (map keys, enum base types), and validation continues after an error
+// has been recorded, so resolution must not recurse forever: a cycle resolves to the reference itself.
+func getUnderlyingType(t Type, aliasesSeen map[*NamedType]bool) Type {
 	underlyingTypeFromTypeDefinition := func(t TypeDefinition) Type {
 		switch t := t.(type) {
 		case *NamedType:
-			return GetUnderlyingType(t.Type)
+			if aliasesSeen[t] {
+				return nil
+			}
+			if aliasesSeen == nil {
+				aliasesSeen = make(map[*NamedType]bool)
+			}
+			aliasesSeen[t] = true
+			return getUnderlyingType(t.Type, aliasesSeen)
 		default:
 			return nil
 		}
@@ -514,7 +529,7 @@ func GetUnderlyingType(t Type) Type {
 		switch t.Dimensionality.(type) {
 		case nil:
 			if t.Cases.IsSingle() {
-				return GetUnderlyingType(t.Cases[0].Type)
+				return getUnderlyingType(t.Cases[0].Type, aliasesSeen)
 			}
 		}
 	}
